@@ -163,7 +163,7 @@ After(c, evs) == IF KnownEvs(evs) THEN Replay(caches[c].it, evs).it ELSE caches[
 (* ------------------------------------------------------------------ actions *)
 Skip == UNCHANGED <<buf, caches, stages, pubs, fsubs, ctls, mons, pend, net>>
 
-NetInit == [lists |-> <<>>, consumed |-> 0, wat |-> <<>>, sess |-> <<>>, expectStop |-> FALSE, failDelivered |-> FALSE, firstFailed |-> FALSE, period |-> 0, tDelivered |-> -1, tConsumed |-> -1, variant |-> ""]
+NetInit == [lists |-> <<>>, consumed |-> 0, wat |-> <<>>, sess |-> <<>>, expectStop |-> FALSE, failDelivered |-> FALSE, firstFailed |-> FALSE, period |-> 0, tDelivered |-> -1, tConsumed |-> -1, variant |-> "", maxrv |-> 0, stale |-> FALSE]
 
 EvBegin == /\ buf' = R.buf
            /\ caches' = <<>> /\ stages' = <<>> /\ pubs' = <<>> /\ fsubs' = <<>> /\ ctls' = <<>> /\ mons' = <<>>
@@ -393,7 +393,10 @@ EvRecv ==
   LET e == R.ev
       \* C05 speaks of Subscribe/Clone trees: the cache read is the controller's.  (A filtered node's private cache may
       \* transiently hold an older version after a Refilter with parent events in flight - see DESIGN.md, observation O1.)
-      cacheOlder == /\ \E c \in DOMAIN ctls : ctls[c].cache = CacheOf(A)
+      \* ... and presumes a server that does not go back in time: after a stale list answer the cache legitimately
+      \* drops what the answer does not know and the replayed watch brings it back version by version.
+      cacheOlder == /\ ~net.stale
+                    /\ \E c \in DOMAIN ctls : ctls[c].cache = CacheOf(A)
                     /\ e.et # "delete" /\ IsNum(e.o.v)
                     /\ ~("drain" \in DOMAIN R)
                     /\ R.cp /\ IsNum(R.cv) /\ R.cv < e.o.v IN
@@ -527,8 +530,14 @@ EvSrvSnapshot ==
   /\ Skip
 
 (* ------------------------------------------------------------------ server, lister, watcher, session *)
+\* srv.mut: the server's own history; a list answer that is older than the newest change at the moment it is returned
+\* is a stale answer (a slow list whose snapshot was taken at call time, or an API server answering from an old cache)
+EvSrvMut == /\ net' = [net EXCEPT !.maxrv = IF R.rv > @ THEN R.rv ELSE @]
+            /\ UNCHANGED <<buf, caches, stages, pubs, fsubs, ctls, mons, pend>>
+
 EvSrvListRet ==
   /\ net' = [net EXCEPT !.lists = Append(@, [n |-> R.n, rv |-> R.rv, list |-> R.list, fail |-> R.fail]),
+                        !.stale = @ \/ (R.fail = "" /\ R.rv < net.maxrv),
                         !.expectStop = @ \/ (R.fail \notin {"", "ctx"}),
                         !.firstFailed = @ \/ (R.n = 0 /\ R.fail \notin {"", "ctx"})]
   /\ UNCHANGED <<buf, caches, stages, pubs, fsubs, ctls, mons, pend>>
@@ -739,6 +748,7 @@ Dispatch ==
     [] e = "rd.call"          -> EvRdCall
     [] e = "rd.ret"           -> EvRdRet
     [] e = "rd.recheck"       -> EvRdRecheck
+    [] e = "srv.mut"          -> EvSrvMut
     [] e = "srv.listret"      -> EvSrvListRet
     [] e = "srv.listcall"     -> EvSrvListCall
     [] e = "lister.delivered" -> EvListerDelivered
